@@ -11557,3 +11557,132 @@ let run_line6 line =
             (is_pynode_line ts)
        then append id (append tab (run_pynode ts))
        else run_line5 line)
+
+(** val run_value3 : string list -> string **)
+
+let run_value3 = function
+| [] ->
+  String ((Ascii (false, true, false, false, false, true, true, false)),
+    (String ((Ascii (true, false, false, false, false, true, true, false)),
+    (String ((Ascii (false, false, true, false, false, true, true, false)),
+    (String ((Ascii (true, true, false, false, false, true, true, false)),
+    (String ((Ascii (true, false, false, false, false, true, true, false)),
+    (String ((Ascii (true, true, false, false, true, true, true, false)),
+    (String ((Ascii (true, false, true, false, false, true, true, false)),
+    EmptyString)))))))))))))
+| n0 :: ts' ->
+  (match nat_of_string n0 with
+   | Some n1 ->
+     (match p_yamls n1 ts' with
+      | Some p ->
+        let (ys, l) = p in
+        (match l with
+         | [] ->
+           String ((Ascii (false, true, false, false, false, true, true,
+             false)), (String ((Ascii (true, false, false, false, false,
+             true, true, false)), (String ((Ascii (false, false, true, false,
+             false, true, true, false)), (String ((Ascii (true, true, false,
+             false, false, true, true, false)), (String ((Ascii (true, false,
+             false, false, false, true, true, false)), (String ((Ascii (true,
+             true, false, false, true, true, true, false)), (String ((Ascii
+             (true, false, true, false, false, true, true, false)),
+             EmptyString)))))))))))))
+         | n2 :: ts2 ->
+           (match nat_of_string n2 with
+            | Some n3 ->
+              (match p_yamls n3 ts2 with
+               | Some p0 ->
+                 let (ys2, l0) = p0 in
+                 (match l0 with
+                  | [] ->
+                    canon_res (canon false)
+                      (bind (merge_layers ys) (fun root ->
+                        bind (merge_layers ys2) (fun m ->
+                          rendered run_fuel root (VMap m))))
+                  | _ :: _ ->
+                    String ((Ascii (false, true, false, false, false, true,
+                      true, false)), (String ((Ascii (true, false, false,
+                      false, false, true, true, false)), (String ((Ascii
+                      (false, false, true, false, false, true, true, false)),
+                      (String ((Ascii (true, true, false, false, false, true,
+                      true, false)), (String ((Ascii (true, false, false,
+                      false, false, true, true, false)), (String ((Ascii
+                      (true, true, false, false, true, true, true, false)),
+                      (String ((Ascii (true, false, true, false, false, true,
+                      true, false)), EmptyString))))))))))))))
+               | None ->
+                 String ((Ascii (false, true, false, false, false, true,
+                   true, false)), (String ((Ascii (true, false, false, false,
+                   false, true, true, false)), (String ((Ascii (false, false,
+                   true, false, false, true, true, false)), (String ((Ascii
+                   (true, true, false, false, false, true, true, false)),
+                   (String ((Ascii (true, false, false, false, false, true,
+                   true, false)), (String ((Ascii (true, true, false, false,
+                   true, true, true, false)), (String ((Ascii (true, false,
+                   true, false, false, true, true, false)),
+                   EmptyString))))))))))))))
+            | None ->
+              String ((Ascii (false, true, false, false, false, true, true,
+                false)), (String ((Ascii (true, false, false, false, false,
+                true, true, false)), (String ((Ascii (false, false, true,
+                false, false, true, true, false)), (String ((Ascii (true,
+                true, false, false, false, true, true, false)), (String
+                ((Ascii (true, false, false, false, false, true, true,
+                false)), (String ((Ascii (true, true, false, false, true,
+                true, true, false)), (String ((Ascii (true, false, true,
+                false, false, true, true, false)), EmptyString)))))))))))))))
+      | None ->
+        String ((Ascii (false, true, false, false, false, true, true,
+          false)), (String ((Ascii (true, false, false, false, false, true,
+          true, false)), (String ((Ascii (false, false, true, false, false,
+          true, true, false)), (String ((Ascii (true, true, false, false,
+          false, true, true, false)), (String ((Ascii (true, false, false,
+          false, false, true, true, false)), (String ((Ascii (true, true,
+          false, false, true, true, true, false)), (String ((Ascii (true,
+          false, true, false, false, true, true, false)),
+          EmptyString))))))))))))))
+   | None ->
+     String ((Ascii (false, true, false, false, false, true, true, false)),
+       (String ((Ascii (true, false, false, false, false, true, true,
+       false)), (String ((Ascii (false, false, true, false, false, true,
+       true, false)), (String ((Ascii (true, true, false, false, false, true,
+       true, false)), (String ((Ascii (true, false, false, false, false,
+       true, true, false)), (String ((Ascii (true, true, false, false, true,
+       true, true, false)), (String ((Ascii (true, false, true, false, false,
+       true, true, false)), EmptyString))))))))))))))
+
+(** val run_line7 : string -> string **)
+
+let run_line7 line =
+  match words line with
+  | [] ->
+    String ((Ascii (false, true, false, false, false, true, true, false)),
+      (String ((Ascii (true, false, false, false, false, true, true, false)),
+      (String ((Ascii (false, false, true, false, false, true, true, false)),
+      (String ((Ascii (false, false, true, true, false, true, true, false)),
+      (String ((Ascii (true, false, false, true, false, true, true, false)),
+      (String ((Ascii (false, true, true, true, false, true, true, false)),
+      (String ((Ascii (true, false, true, false, false, true, true, false)),
+      EmptyString)))))))))))))
+  | id :: l ->
+    (match l with
+     | [] ->
+       String ((Ascii (false, true, false, false, false, true, true, false)),
+         (String ((Ascii (true, false, false, false, false, true, true,
+         false)), (String ((Ascii (false, false, true, false, false, true,
+         true, false)), (String ((Ascii (false, false, true, true, false,
+         true, true, false)), (String ((Ascii (true, false, false, true,
+         false, true, true, false)), (String ((Ascii (false, true, true,
+         true, false, true, true, false)), (String ((Ascii (true, false,
+         true, false, false, true, true, false)), EmptyString)))))))))))))
+     | mode :: ts ->
+       if eqb1 mode (String ((Ascii (false, true, true, false, true, true,
+            true, false)), (String ((Ascii (true, false, false, false, false,
+            true, true, false)), (String ((Ascii (false, false, true, true,
+            false, true, true, false)), (String ((Ascii (true, false, true,
+            false, true, true, true, false)), (String ((Ascii (true, false,
+            true, false, false, true, true, false)), (String ((Ascii (true,
+            true, false, false, true, true, false, false)),
+            EmptyString))))))))))))
+       then append id (append tab (run_value3 ts))
+       else run_line6 line)
